@@ -2092,7 +2092,11 @@ func hcRunOnce(t *testing.T, rt *rapid.T, focus string) {
 	}
 	if viol != nil && viol.Prop != focus {
 		vs.G.Inc("foreign_violation." + viol.Prop + "." + viol.Oracle)
-		viol = nil
+		if os.Getenv("VERIF_SHOW_FOREIGN") == viol.Oracle {
+			viol.Prop = focus // by hand: look at what an oracle of another focus sees here
+		} else {
+			viol = nil
+		}
 	}
 	vs.Report(rt, viol, tr)
 }
